@@ -15,7 +15,10 @@ META = {
         'what that thing depends on (a reference\'s inputs, the spill range '
         'behind an anchor, the inputs of each cell added); whole rows/columns '
         'are clipped with min(bound, sheet maximum); from_ranges seeds the '
-        'work-list with the requested ranges; (drop) every path of add_cell '
+        'work-list with the requested ranges; (snapshot) a local copy of the '
+        'derived `references` property is never used after a call that can '
+        'load a workbook (and so define names) without being re-read, on any '
+        'path including the exception edges; (drop) every path of add_cell '
         'that discards a cell is a duplicate, a blank, or - for a constant '
         'covered by an array formula - is matched by the caller enqueuing the '
         'covering formula.'),
@@ -89,9 +92,10 @@ def rule_worklist(ctx):
     rr.instances += 3
     # (1) reference branch
     ref_alias = {'self.references'}
-    for n in ast.walk(lp):
-        if isinstance(n, ast.Assign) and norm_src(n.value) == 'self.references':
-            ref_alias |= {t.id for t in n.targets if isinstance(t, ast.Name)}
+    from ..util import assign_pairs
+    for t, v, _st in assign_pairs(f):
+        if isinstance(t, ast.Name) and norm_src(v) == 'self.references':
+            ref_alias.add(t.id)
     ref_if = [n for n in lp.body if isinstance(n, ast.If) and any(
         norm_src(n.test).endswith(' in %s' % a) for a in ref_alias)]
     if ref_if and any(call_name(c) == 'extend' and '.inputs' in norm_src(c)
@@ -171,46 +175,6 @@ def rule_worklist(ctx):
                     line=it[0].lineno)
     else:
         raise AnalysisError('complete: iter_rows call not recognised')
-    # the defined names used to compile a book's cells are read after the book
-    # has been opened in this iteration (add_book registers its names)
-    rr.instances += 1
-    cfg = CFG(f)
-    dom = cfg.dominators()
-    ab = [n for n in ast.walk(lp) if isinstance(n, ast.Call)
-          and call_name(n) == 'add_book']
-    cc = [n for n in ast.walk(lp) if isinstance(n, ast.Call)
-          and call_name(n) == 'compile_cell']
-    refarg = None
-    if cc:
-        refarg = cc[0].args[2] if len(cc[0].args) >= 3 else kwarg(
-            cc[0], 'references')
-    if ab and cc and refarg is not None:
-        ok = None
-        if norm_src(refarg) == 'self.references':
-            ok = True
-        elif isinstance(refarg, ast.Name):
-            asg = [n for n in ast.walk(lp) if isinstance(n, ast.Assign) and any(
-                isinstance(t, ast.Name) and t.id == refarg.id
-                for t in n.targets) and norm_src(n.value) == 'self.references']
-            if asg:
-                an, bn = cfg.node_of(asg[-1]), cfg.node_of(ab[0])
-                ok = all(cfg.dominates(bn, cfg.node_of(a), dom) for a in asg)
-        if ok is None:
-            raise AnalysisError('complete: references argument of compile_cell '
-                                'not recognised')
-        if ok:
-            rr.ok('defined names are (re-)read after add_book() before the '
-                  "book's cells are compiled", '%s:%d' % (EXCEL, cc[0].lineno))
-        else:
-            rr.fail(key_of(f, 'stale references snapshot'),
-                    'complete() compiles cells with a snapshot of '
-                    'self.references taken before add_book() opened the '
-                    'workbook in this iteration: defined names of a workbook '
-                    'opened by the work-list are unknown to its first cells '
-                    '(#REF!)', file=EXCEL, function=f.qualname,
-                    line=cc[0].lineno)
-    else:
-        raise AnalysisError('complete: add_book/compile_cell calls not found')
     # from_ranges seeds the work-list
     fr = p.func(EXCEL, 'ExcelModel.from_ranges')
     rr.instances += 1
@@ -293,5 +257,7 @@ def rule_drop(ctx):
 
 def run(ctx):
     from .common import rule_cachekey
+    from .modelstate import rule_snapshot
     return [rule_worklist(ctx), rule_drop(ctx),
+            rule_snapshot(ctx, 'C15', 'C15.snapshot'),
             rule_cachekey(ctx, 'C15', 'C15.cachekey', [EXCEL])]
